@@ -22,7 +22,8 @@ LEVEL = "exploration"
 
 ATOMS = ["x", "y z", "p [[ q", "p ]] q", "[[a]]", "{{PAGENAME:}}", "{{PAGENAME}}", "{{#if:|}}", "{{t|}}", "{{t||x}}", "{{lc:}}"]
 # further atoms: used bare and under one wrapper only (they do not multiply through the depth-2 products)
-EXTRA_ATOMS = ["r [1][2] s", "e [] f", "{{t|{{t|x}}\nc}}", "[[a|{{t|x}}\nc]]",   # an argument that goes on after a nested call, on a new line
+EXTRA_ATOMS = ["r [1][2] s", "e [] f", '<span id="id" lang="lang">v</span>',     # attribute values spelled like their names
+               "{{t|{{t|x}}\nc}}", "[[a|{{t|x}}\nc]]",   # an argument that goes on after a nested call, on a new line
                'p<br clear="all">q', '<span id="e"></span>', '<ref name="n" />', "-3", "+1", "}x"]   # void / empty elements with attributes; the last three: cell texts that begin like a table marker
 WRAPS = ["'''%s'''", "''%s''", "[[a|%s]]", "{{t|%s}}", "{{t|k=%s}}", "{{#if:x|%s|z}}", '<span class="c">%s</span>',
          "<b>%s</b>", "[http://x.y %s]", "{{{p|%s}}}"]
@@ -31,6 +32,7 @@ BLOCKS = [
     "{|\n|%s\n|}\n", '{| class="c"\n|+%s\n|-\n! %s !! %s\n|-\n| style="s" | %s || %s\n|}\n',
     "{|\n|-\n|%s\n|%s\n|-\n!%s\n|}\n", "{|\n|%s||%s\n|}\n", "{|\n!%s!!%s\n|}\n",
     '{|\n! scope="col" | %s\n! id="h2" | %s\n|- class="r"\n| %s\n|}\n', '{| id="t"\n|+ class="k" |%s\n|-\n! colspan="2" | %s\n|}\n',
+    '{| class="class"\n|+ lang="lang" |%s\n|- id="id"\n! scope="scope" | %s\n| nowrap="nowrap" | %s\n|}\n',
     '<div class="c"><span id="s">%s</span></div>\n', "{|\n|+ %s\n|}\n", "----\n", "<div>%s</div>\n", '<div id="i">\n%s\n</div>\n', ":%s\n",
 ]
 # cells glued to the inline cell separator; in the quick tier their second slot ranges over TIGHT_SECOND only
